@@ -13,13 +13,22 @@ package main
 import (
 	"bytes"
 	"context"
+	"crypto/ecdsa"
+	"crypto/elliptic"
+	"crypto/rand"
+	"crypto/tls"
+	"crypto/x509"
+	"crypto/x509/pkix"
 	"encoding/json"
 	"fmt"
 	"io"
 	"log"
+	"math/big"
 	"net"
+	"net/http"
 	"os"
 	"sync"
+	"sync/atomic"
 	"testing"
 	"time"
 
@@ -28,6 +37,7 @@ import (
 	"github.com/fabiolb/fabio/proxy"
 	"github.com/fabiolb/fabio/route"
 
+	gkm "github.com/go-kit/kit/metrics"
 	"google.golang.org/grpc"
 	"google.golang.org/grpc/credentials/insecure"
 	"google.golang.org/grpc/status"
@@ -222,5 +232,134 @@ func TestVerifC16(t *testing.T) {
 	b, _ := json.Marshal(out)
 	if err := os.WriteFile(outF, b, 0o644); err != nil {
 		t.Fatal(err)
+	}
+}
+
+// ---------------------------------------------------------------------------
+// Serve mode: the gRPC listener exactly as main.go starts it -- newGrpcProxy for the server
+// options, proxy.ListenAndServeGRPC for the listener -- once without TLS and once with a TLS
+// listener (the listener's tls.Config is what newGrpcProxy hands to the director's pool), kept
+// running while the harness (another process: backends and callers) talks to it.  A small
+// control endpoint replaces the registry: POST /table sets the routing table from route
+// commands, GET /stats reads the no-route counter, POST /quit ends the test.
+// VERIF_C16_SERVE names the status file to write; VERIF_C16_SERVE_CFG is
+// {"noglob":bool,"shutdown_ms":int}.
+
+type verifC16Counter struct{ n *int64 }
+
+func (c verifC16Counter) With(...string) gkm.Counter { return c }
+func (c verifC16Counter) Add(d float64)              { atomic.AddInt64(c.n, int64(d)) }
+
+func verifC16SelfSigned() tls.Certificate {
+	key, err := ecdsa.GenerateKey(elliptic.P256(), rand.Reader)
+	if err != nil {
+		panic(err)
+	}
+	tmpl := &x509.Certificate{SerialNumber: big.NewInt(16), Subject: pkix.Name{CommonName: "verif-c16"},
+		NotBefore: time.Now().Add(-time.Hour), NotAfter: time.Now().Add(24 * time.Hour),
+		KeyUsage: x509.KeyUsageDigitalSignature, ExtKeyUsage: []x509.ExtKeyUsage{x509.ExtKeyUsageServerAuth},
+		IPAddresses: []net.IP{net.ParseIP("127.0.0.1")}, DNSNames: []string{"localhost"}}
+	der, err := x509.CreateCertificate(rand.Reader, tmpl, tmpl, &key.PublicKey, key)
+	if err != nil {
+		panic(err)
+	}
+	return tls.Certificate{Certificate: [][]byte{der}, PrivateKey: key}
+}
+
+func verifC16FreeAddr() string {
+	ln, err := net.Listen("tcp", "127.0.0.1:0")
+	if err != nil {
+		panic(err)
+	}
+	defer ln.Close()
+	return ln.Addr().String()
+}
+
+func TestVerifC16Serve(t *testing.T) {
+	statusF := os.Getenv("VERIF_C16_SERVE")
+	if statusF == "" {
+		t.Skip("VERIF_C16_SERVE not set")
+	}
+	log.SetOutput(io.Discard)
+	var sc struct {
+		NoGlob     bool `json:"noglob"`
+		ShutdownMs int  `json:"shutdown_ms"`
+	}
+	json.Unmarshal([]byte(os.Getenv("VERIF_C16_SERVE_CFG")), &sc)
+
+	cfg := &config.Config{}
+	cfg.Proxy.Strategy = "rr"
+	cfg.Proxy.Matcher = "prefix"
+	cfg.Proxy.GRPCMaxRxMsgSize = 4 * 1024 * 1024
+	cfg.Proxy.GRPCMaxTxMsgSize = 4 * 1024 * 1024
+	cfg.Proxy.GRPCGShutdownTimeout = time.Duration(sc.ShutdownMs) * time.Millisecond
+	cfg.GlobCacheSize = 1000
+	cfg.GlobMatchingDisabled = sc.NoGlob
+
+	var noRoute int64
+	dp := metrics.DiscardProvider{}
+	sh := &proxy.GrpcStatsHandler{Connect: dp.NewCounter("c"), Request: dp.NewHistogram("r"), NoRoute: verifC16Counter{&noRoute}, Status: dp.NewHistogram("s", "code")}
+
+	type inst struct {
+		Addr string `json:"addr"`
+		T0   int64  `json:"t0_unix_nano"` // just before the director (and its cleanup loop) was created
+	}
+	start := func(tlscfg *tls.Config, proto string) inst {
+		for try := 0; ; try++ {
+			in := inst{Addr: verifC16FreeAddr(), T0: time.Now().UnixNano()}
+			opts := newGrpcProxy(cfg, tlscfg, sh) // main.go:398
+			errc := make(chan error, 1)
+			go func() { errc <- proxy.ListenAndServeGRPC(config.Listen{Addr: in.Addr, Proto: proto}, opts, tlscfg) }() // main.go:399
+			select {
+			case err := <-errc:
+				if try > 5 {
+					t.Fatalf("ListenAndServeGRPC: %v", err)
+				}
+				continue
+			case <-time.After(200 * time.Millisecond):
+				return in
+			}
+		}
+	}
+	plain := start(nil, "grpc")
+	cert := verifC16SelfSigned()
+	secure := start(&tls.Config{Certificates: []tls.Certificate{cert}, NextProtos: []string{"h2"}}, "grpcs")
+	defer proxy.Close()
+
+	quit := make(chan struct{})
+	mux := http.NewServeMux()
+	mux.HandleFunc("/table", func(w http.ResponseWriter, r *http.Request) {
+		b, _ := io.ReadAll(r.Body)
+		tbl, err := route.NewTable(bytes.NewBuffer(b))
+		if err != nil {
+			http.Error(w, err.Error(), 400)
+			return
+		}
+		route.SetTable(tbl)
+		w.Write([]byte("ok"))
+	})
+	mux.HandleFunc("/stats", func(w http.ResponseWriter, r *http.Request) {
+		fmt.Fprintf(w, "%d", atomic.LoadInt64(&noRoute))
+	})
+	mux.HandleFunc("/quit", func(w http.ResponseWriter, r *http.Request) {
+		w.Write([]byte("bye"))
+		close(quit)
+	})
+	cln, err := net.Listen("tcp", "127.0.0.1:0")
+	if err != nil {
+		t.Fatal(err)
+	}
+	go http.Serve(cln, mux)
+	defer cln.Close()
+
+	st, _ := json.Marshal(map[string]interface{}{"plain": plain, "tls": secure, "ctrl": cln.Addr().String()})
+	if err := os.WriteFile(statusF+".tmp", st, 0o644); err != nil {
+		t.Fatal(err)
+	}
+	os.Rename(statusF+".tmp", statusF)
+	select {
+	case <-quit:
+	case <-time.After(15 * time.Minute):
+		t.Fatal("no /quit within 15 minutes")
 	}
 }
